@@ -15,7 +15,7 @@ except Exception as e:
     print('no meta', e); sys.exit(0)
 m['first_result_on_baseline_commit']='detected' if 'detected_by_owner = True' in sys.argv[2] else 'missed'
 m['wave']=int(sys.argv[3]) if len(sys.argv)>3 else 2
-m['author']='independent sub-agent given only the property text, a scratch worktree and the one-line summaries of earlier rounds' ideas to avoid'
+m['author']='independent sub-agent given only the property text, a scratch worktree and the one-line summaries of earlier rounds ideas to avoid'
 json.dump(m,open(p,'w'),indent=1)
 print(sys.argv[1], m['first_result_on_baseline_commit'], '->', 'detected' if m.get('detected_by_owner') else 'MISSED')
 PY
